@@ -106,6 +106,17 @@ def run_peak(tools, path, args, stack, max_steps=400000000, timeout=120):
     return r
 
 
+def verify_retry(tools, dump, **kw):
+    """tools.verify, tolerant of the runner being re-linked by a concurrent build"""
+    import time
+    for attempt in range(30):
+        try:
+            return tools.verify(dump, **kw)
+        except OSError:
+            time.sleep(1.0)
+    return tools.verify(dump, **kw)
+
+
 def fkey(shape_id):
     """short stable form of a shape id for violation keys"""
     s = re.sub(r"[^A-Za-z0-9_,()|:-]", "", shape_id)
@@ -160,7 +171,7 @@ def run(ctx):
                 byname[fname.get(own, "?")] += 1
         r = run_peak(tools, src, spec.get("args", []), spec.get("stack", STACK))
         good = r.get("end") == spec["expect"] and all(byname[k] == v for k, v in spec.get("tail_transfers_in", {}).items())
-        v = tools.verify(dump)
+        v = verify_retry(tools, dump)
         if not good:
             violation(spec["key"], "%s: %s — expected END %s with tail transfers %s, observed %s (status %s) with %s" % (
                 os.path.basename(src), spec["what"], spec["expect"], spec.get("tail_transfers_in"), r.get("end"), r["status"], dict(byname)),
@@ -218,7 +229,7 @@ def run(ctx):
             if names[d["code"][t[0]][0]] == "BYTECODE_CALL" and t[2] == t[3] and t[2] >= 0:
                 tt += 1
         res["small_tail_transfers"] = tt
-        res["verify"] = tools.verify(dump, max_steps=200000)
+        res["verify"] = verify_retry(tools, dump, max_steps=200000)
         try:
             os.unlink(dump)
         except OSError:
